@@ -24,6 +24,50 @@ theorem decision_same (k ν : ℚ) (m : ℕ) (hk : 0 < k) : discardCpp k ν m = 
 theorem decision_same_disabled (ν : ℚ) (m : ℕ) : discardCpp 0 ν m = discard none ν m := by
   simp [discardCpp, discard]
 
+theorem innovCov_same {m n : Nat} (H : QMat m n) (P : QMat n n) (Q : QMat m m) : innovCov H P Q = innovCovCpp H P Q := by
+  apply QMat.toMatrix_inj
+  simp [innovCov, innovCovCpp, Matrix.mul_assoc]
+
+theorem gain_same {m n : Nat} (H : QMat m n) (P : QMat n n) (Si : QMat m m) :
+    gain H P Si = (P.mul H.transpose).mul Si := by
+  apply QMat.toMatrix_inj
+  simp [gain, Matrix.mul_assoc]
+
+/-- **The whole sensor update is the same function**: for a threshold `k > 0` (or filtering disabled, which the generated code spells
+`0.0`) the generated-C++-shaped update returns exactly what the Python-shaped one returns — updated state, covariance, recorded
+innovation, recorded innovation covariance and the accept/reject flag — for every prior, reading and inverse certificate. -/
+theorem sensor_update_same {m n : Nat} (f : Option ℚ) (hf : ∀ k, f = some k → 0 < k) (H : QMat m n) (P : QMat n n) (Q : QMat m m)
+    (Si : QMat m m) (x : Fin n → ℚ) (z hx : Fin m → ℚ) :
+    sensorUpdateCpp (f.getD 0) H P Q Si x z hx = sensorUpdate f H P Q Si x z hx := by
+  have hd : ∀ ν, discardCpp (f.getD 0) ν m = discard f ν m := by
+    intro ν
+    cases f with
+    | none => simpa using decision_same_disabled ν m
+    | some k => simpa using decision_same k ν m (hf k rfl)
+  unfold sensorUpdateCpp sensorUpdate
+  have hs : ∀ y : Fin m → ℚ, updState H P Si x y = fun i => x i + (((P.mul H.transpose).mul Si).mulVec y) i := by
+    intro y; funext i; simp only [updState, gain_same]
+  simp only [← innovCov_same, hd, ← update_same, hs]
+
+/-- a whole history of predictions and updates through either shape gives the same covariance (the prediction and update
+functions are equal, so every fold over them is) -/
+theorem history_same {n : Nat} (P : QMat n n) (ops : List (CovOp n)) :
+    covRun P ops = ops.foldlM (fun (P : QMat n n) op => match op with
+      | .predict G V M => some (predictCovCpp G V M P)
+      | .update H Q Si rej => if ((innovCovCpp H P Q).mul Si).eqb QMat.one then some (if rej then P else updCovCpp H P Si) else none) P := by
+  induction ops generalizing P with
+  | nil => rfl
+  | cons op rest ih =>
+    cases op with
+    | predict G V M =>
+      simp only [covRun, covStep, List.foldlM_cons, Option.bind_some, predict_same]
+      exact ih _
+    | update H Q Si rej =>
+      simp only [covRun, covStep, List.foldlM_cons, innovCov_same, update_same]
+      split
+      · simp only [Option.bind_some]; exact ih _
+      · rfl
+
 example : predictCov (n := 1) (c := 1) (QMat.ofFn fun _ _ => 2) (QMat.ofFn fun _ _ => 3) (QMat.ofFn fun _ _ => 5)
     (QMat.ofFn fun _ _ => 7) = QMat.ofFn fun _ _ => 73 := by decide +kernel
 
